@@ -97,7 +97,15 @@ func (rt c15RT) RoundTrip(req *http.Request) (*http.Response, error) {
 			// the client is talking to, whatever its location looks like
 			return c15JSON(200, doc("https://foreign.example"+strings.TrimPrefix(u.Path, "/.well-known/oauth-protected-resource"), "https://as-of-foreign-prm.example")), nil
 		}
-		switch fault("prm-answer", 12) {
+		switch fault("prm-answer", 15) {
+		// script schemes in the spellings browsers still run: leading blanks or control characters,
+		// tabs or line breaks inside the scheme
+		case 12:
+			return c15JSON(200, docWith(resource, "resource_policy_uri", " javascript:alert(1)")), nil
+		case 13:
+			return c15JSON(200, docWith(resource, "resource_tos_uri", "java\tscript:alert(1)")), nil
+		case 14:
+			return c15JSON(200, docWith(resource, "resource_documentation", "\x01data:text/html,<script>1</script>")), nil
 		case 9:
 			return c15JSON(200, docWith(resource, "resource_policy_uri", "javascript:alert(1)")), nil
 		case 10:
@@ -161,13 +169,13 @@ func (rt c15RT) RoundTrip(req *http.Request) (*http.Response, error) {
 			b, _ := json.Marshal(m)
 			return string(b)
 		}
-		answer := fault("asm-answer", 13)
+		answer := fault("asm-answer", 15)
 		if (answer >= 1 && answer <= 6) || answer >= 10 {
 			if s.rejectable == nil {
 				s.rejectable = map[string]string{}
 			}
 			s.rejectable[u.Host] = map[int]string{1: "issuer-mismatch", 2: "no-pkce", 3: "token-http", 4: "registration-data-scheme", 5: "tos-javascript", 6: "authz-javascript-loopback",
-				10: "issuer-other-port", 11: "issuer-with-query", 12: "issuer-with-userinfo"}[answer]
+				10: "issuer-other-port", 11: "issuer-with-query", 12: "issuer-with-userinfo", 13: "tos-obfuscated-javascript", 14: "policy-obfuscated-vbscript"}[answer]
 		}
 		switch answer {
 		case 0:
@@ -193,6 +201,10 @@ func (rt c15RT) RoundTrip(req *http.Request) (*http.Response, error) {
 			return c15JSON(200, doc("issuer-with-query", map[string]any{"issuer": issuer + "?tenant=other"})), nil
 		case 12:
 			return c15JSON(200, doc("issuer-with-userinfo", map[string]any{"issuer": strings.Replace(issuer, "://", "://tenant@", 1)})), nil
+		case 13:
+			return c15JSON(200, doc("tos-obfuscated-javascript", map[string]any{"op_tos_uri": "\tjavascript:alert(1)"})), nil
+		case 14:
+			return c15JSON(200, doc("policy-obfuscated-vbscript", map[string]any{"op_policy_uri": "vb\nscript:msgbox(1)"})), nil
 		case 9:
 			return redirect(302), nil
 		default:
@@ -374,7 +386,7 @@ func c15Run(ch *verifx.Chooser) (obs, bad, sig string, steps int) {
 		if !issOK && strings.Contains(last, "doc=ok") {
 			fail("code-exchanged-despite-iss-violation", "the code was exchanged although the RFC 9207 issuer check must fail (AS advertises iss parameter: %v, returned iss: %s)", s.issParam, s.issCase)
 		}
-		for _, bad := range []string{"doc=issuer-mismatch", "doc=no-pkce", "doc=token-http", "doc=registration-data-scheme", "doc=tos-javascript", "doc=authz-javascript-loopback", "doc=issuer-other-port", "doc=issuer-with-query", "doc=issuer-with-userinfo"} {
+		for _, bad := range []string{"doc=issuer-mismatch", "doc=no-pkce", "doc=token-http", "doc=registration-data-scheme", "doc=tos-javascript", "doc=authz-javascript-loopback", "doc=issuer-other-port", "doc=issuer-with-query", "doc=issuer-with-userinfo", "doc=tos-obfuscated-javascript", "doc=policy-obfuscated-vbscript"} {
 			if strings.Contains(last, bad) {
 				fail("rejected-metadata-used "+bad, "the code was sent to the token endpoint of metadata that must be rejected (%s)", last)
 			}
